@@ -184,14 +184,29 @@ def gen_case(r, kind, nmax, ctx):
         cover = 2 * r.range(1, w + 1)
         split = 0 if r.chance(1, 2) else r.range(0, m - 2)
         P = []
-        for _ in range(r.range(0, 12)):
-            q = list(r.choice(P)) if P and r.chance(1, 6) else [2 * r.below(w + 1) for _ in range(m)]
-            if r.chance(1, 3):                               # below the region in most coordinates (piles)
-                keep = r.below(m - 1)
-                q = [q[d] if d in (keep, m - 1) else min(q[d], lo[d] - (lo[d] % 2)) for d in range(m)]
+        style = r.choice(["any", "any", "piles", "two"])
+        for _ in range(r.choice([0, 1, 2]) if r.chance(1, 8) else r.range(3, 14)):
+            if P and r.chance(1, 8): P.append(list(r.choice(P))); continue
+            # coordinates: even, below `up` (the point reaches into the region), last one below `cover`
+            q = [2 * r.range(min(0, (up[d] - 1) // 2), (up[d] - 1) // 2) for d in range(m - 1)] + [2 * r.range(0, cover // 2 - 1)]
+            stick = [d for d in range(m - 1) if q[d] > lo[d]]
+            want = {"any": None, "piles": 1, "two": 2}[style] if not r.chance(1, 5) else None
+            if want is not None:
+                keep = set()
+                cand = list(range(m - 1))
+                while cand and len(keep) < want: keep.add(cand.pop(r.below(len(cand))))
+                for d in range(m - 1):
+                    if d in keep and q[d] <= lo[d] and 2 * ((lo[d] // 2) + 1) < up[d]: q[d] = 2 * r.range(lo[d] // 2 + 1, (up[d] - 1) // 2)
+                    if d not in keep and q[d] > lo[d]: q[d] = 2 * (lo[d] // 2) - 2 * r.below(2)
             if any(q[d] >= up[d] for d in range(m - 1)) or q[m - 1] >= cover: continue
             if sum(1 for d in range(split) if lo[d] < q[d]) >= 2: continue
             P.append(q)
+        # reachable states only: an objective behind `split` has never been cut, regionLow is the minimum over all points there
+        # (on other states the real `stream` and the model agree with each other but not with the definition: the
+        # median collected for an earlier split objective can fall outside the region, e.g.
+        # hoys 5 5 2 0 4 0 3 -1 0 5 5 10 3 6 9 2 2 2 0 0 0 4 0 2 0 4 4 0 2 0 4 2 0 0 2 2 2 0 2 2 gives 1800 instead of 1760)
+        for d in range(split + 1, m - 1):
+            if P: lo[d] = min(lo[d], min(p[d] for p in P))
         P.sort(key=lambda p: p[m - 1])
         n = len(P)
         sq = r.choice([0, 1, 2, 3, int(n ** 0.5)])
